@@ -106,13 +106,22 @@ class ControllerNode:
             f(self, resp, qk, rec)
 
     def retry_task(self, done: Callable[[], bool], ch: Any, max_delay: int = 500) -> Generator:
-        """Retry timer for responses the executor could not place yet."""
+        """Retry timer for responses the executor could not place yet.  How soon it fires is a per-run property of
+        the simulated controller: eager (at its next turn) or lazy (it lets up to `lazy` of its turns pass first), so
+        that a subroutine can run well ahead of a deferred response."""
+        lazy = ch.pick([0, 0, 0, 8, 60])
+        self.env.retry_lazy = lazy
         while True:
             if done():
                 return
             yield ("block", lambda: (self.env.retry_armed and bool(self.ex._pending_epr_responses)) or done())
             if done():
                 return
+            if lazy:
+                for _ in range(ch.draw(lazy + 1, "retry-lazy")):
+                    yield ("sleep", 1)
+                    if done():
+                        return
             if self.env.retry_armed and self.ex._pending_epr_responses:
                 self.ex.retry_pending()
                 yield ("sleep", 1 + ch.draw(max_delay, "retry-delay"))
@@ -176,7 +185,7 @@ class ControllerNode:
             tuple(sorted((a, tuple(v)) for a, v in self.arrays(app_id).items())),
             tuple(sorted(self.shm_regs(app_id).items())),
             tuple(sorted((a, tuple(v)) for a, v in self.shm_arrays(app_id).items())),
-            tuple(self.unit_module(app_id)),
+            tuple(self.ex._qubit_unit_modules.get(app_id, ())),    # (gone first while the application is being stopped)
         )
 
 
